@@ -159,6 +159,27 @@ def r2(repo, chk):
             at = rp.guard_atoms(c) + rp.lexical_guards(c, expand=False)
             ok = txt in ("frame_data", "None") or ("frame_data is not None", True) in at or ("frame_data is None", False) in at
             chk.ob("R2", f"`{norm(c)[:60]}` is safe to re-enter with frame_data=None", ok, "a resumed frame would slice / parse a None payload", rp.loc(c))
+    # everything else a resumed frame needs is read from where the blocking path stored it
+    if dynamic:
+        # (a) push id of a blocked PUSH_PROMISE
+        pid_defs = [(st, norm(v)) for st, t, v in rp.assigns(chain="push_id")]
+        on_resume = [v for st, v in pid_defs if ("frame_data is None", True) in rp.lexical_guards(st, expand=False)]
+        stored = [st for st, t, v in rp.assigns(chain="stream.blocked_push_id") if norm(v) == "push_id"]
+        ok = on_resume == ["stream.blocked_push_id"] and len(stored) == 1 and all(rp.before(stored[0], c) for c in decs if rp.lexical_guards(c, expand=False) == rp.lexical_guards(stored[0], expand=False))
+        chk.ob("R2", "a resumed PUSH_PROMISE takes its push id from where the blocked frame stored it (before decoding could block)", ok, f"push id on resume: {on_resume}, stored by {[norm(x) for x in stored]}: the promise would be reported with another (or no) push id, only when the encoder stream arrives late", rp.loc(rp.node))
+        # (b) sizes used for logging on resume
+        for n in rp.nodes(ast.Attribute):
+            pass
+        # (c) in the unblock loop, the per-frame blocked state is cleared before parsing continues: the continued parse may
+        #     block again and record new state, which a later clear would wipe
+        cont_calls = [c for c in uni.calls(name="self._receive_request_or_push_data")]
+        clears = [st for st, t, v in uni.assigns(suffix="blocked_frame_type") + uni.assigns(suffix="blocked_frame_size") + uni.assigns(suffix="blocked") if norm(t).startswith("stream.blocked") and isinstance(v, ast.Constant) and v.value in (None, False)]
+        loops = {id(_loop_of(st)) for st in clears}
+        cont_calls = [c for c in cont_calls if id(_loop_of(c)) in loops]
+        ok = len(clears) >= 3 and len(loops) == 1 and None not in [_loop_of(st) for st in clears] and bool(cont_calls) and all(st.lineno < c.lineno for st in clears for c in cont_calls)
+        chk.ob("R2", "the unblock loop clears blocked / blocked_frame_type / blocked_frame_size before it continues parsing the stream", ok, "a frame that blocks again during the continued parse records its kind, and a clear placed after the call wipes it: the second blocked frame is later resumed as nothing (events and end-of-stream lost)", uni.loc(uni.node))
+        ok = all(c.lineno < st.lineno for st in clears for c in resumes)
+        chk.ob("R2", "the recorded kind is cleared only after the resume call has read it", ok, "", uni.loc(uni.node))
     ie = Fn(repo, "h3.connection:H3Stream.is_ended")
     rets = [r for r in ie.returns() if r.value is not None]
     ok = bool(rets) and all("not self.blocked" in norm(r.value) and " or " not in norm(r.value) for r in rets)
